@@ -82,6 +82,7 @@ fn main() {
     if let Some(t) = arg(&args, "--threads").and_then(|s| s.parse::<usize>().ok()) {
         let _ = rayon::ThreadPoolBuilder::new().num_threads(t).build_global();
     }
+    util::set_tiny(args.iter().any(|a| a == "--tiny"));
     let t0 = std::time::Instant::now();
     let rep = match cmd.as_str() {
         "c01" => c01::run(seed, thorough, cases, &work, &stage),
